@@ -2,6 +2,7 @@ import IsoMdl.Lemmas.Cbor
 import IsoMdl.Model.Wire
 import IsoMdl.Model.WireSchemas
 import IsoMdl.Lemmas.Schema
+import IsoMdl.Generated.WireStructs
 /-
 C16 — Wire structures round-trip and have a stable encoding.
 Layer 1 (all values of the CBOR data model): `dec (enc v) = v`, `enc` injective, fixed point.
@@ -164,6 +165,28 @@ theorem C16_wire_bytes_fixed_point (name : String) (s : Sch) (hs : (name, s) ∈
     (decodeAll (enc c')).bind (norm s) = some c' := by
   rw [decodeAll_enc c' hwf]
   exact C16_wire_fixed_point name s hs hu c c' h
+
+
+/-- serialised field names and optionality of a struct schema -/
+def fieldSig : Fields → List (List UInt8 × Bool)
+  | .nil => []
+  | .cons (.text k) _ o rest => (k, o) :: fieldSig rest
+  | .cons _ _ o rest => ([], o) :: fieldSig rest
+def schemaSig : Sch → Option (List (List UInt8 × Bool))
+  | .struct fs => some (fieldSig fs)
+  | _ => none
+
+/-- THE SCHEMAS ARE THE SOURCE'S: for every serde-derived wire struct of the current source (13 structs,
+re-extracted on every run: DeviceRequest, DocRequest, ItemsRequest, DeviceResponse, Document,
+IssuerSigned, IssuerSignedItem, DeviceSigned, Mso, DeviceKeyInfo, KeyAuthorizations,
+SessionEstablishment, SessionData) the schema of the same name has exactly its serialised field
+names (after `rename_all` / `rename`), in its declaration order, with the same may-be-absent flags. -/
+theorem C16_wire_fields_match_source :
+    Generated.wireStructs.all (fun ns => match all.find? (fun p => asciiBytes p.1 == ns.1) with
+      | some p => schemaSig p.2 == some ns.2
+      | none => false) = true := by decide +kernel
+
+theorem C16_wire_structs_count : Generated.wireStructs.length = 13 := by decide +kernel
 
 /-- non-vacuity: a SessionData with an unknown entry, an explicit null and fields out of order is
 normalised, and the result is its own normal form -/
